@@ -6,8 +6,8 @@ from fontTools.pens.ttGlyphPen import TTGlyphPen
 from fontTools.ttLib import TTFont
 
 
-def poly_glyph(contours, components=None):
-    pen = TTGlyphPen(None)
+def poly_glyph(contours, components=None, glyph_set=None):
+    pen = TTGlyphPen(glyph_set)
     for pts in contours:
         pen.moveTo(pts[0])
         for q in pts[1:]:
@@ -62,7 +62,13 @@ def make_font(glyphs, cmap=None, upem=1000, ascender=800, descender=-200, advanc
     fb = FontBuilder(upem, isTTF=True)
     fb.setupGlyphOrder(order)
     fb.setupCharacterMap(dict(cmap or {}))
-    gl = {n: poly_glyph(*glyphs[n]) for n in order}
+    gl = {}
+    for n in order:  # simple glyphs first so that composites can refer to them
+        if not glyphs[n][1]:
+            gl[n] = poly_glyph(*glyphs[n])
+    for n in order:
+        if glyphs[n][1]:
+            gl[n] = poly_glyph(glyphs[n][0], glyphs[n][1], gl)
     fb.setupGlyf(gl)
     glyf = fb.font["glyf"]
     metrics = {}
